@@ -76,10 +76,12 @@ def run_files(tag, texts, timeout=900):
             raise RuntimeError("coqc failed on %s:\n%s" % (p, out[-3000:]))
     return [o for _, o in outs]
 
-def eval_codes(tag, carrier, cases, extra_imports="", shard=150, fn="check1"):
+def eval_codes(tag, carrier, cases, extra_imports="", shard=None, fn="check1"):
     """cases: list of (exp_str, obs_str); carrier 'Z' or 'ZI'. Returns list of int codes (model evaluation in Coq)."""
     if not cases:
         return []
+    if shard is None:
+        shard = max(8, min(150, -(-len(cases) // (2 * NPROC))))
     texts = []
     for s in range(0, len(cases), shard):
         chunk = cases[s:s + shard]
